@@ -135,7 +135,7 @@ pub fn run(ctx: &RunCtx) -> i32 {
         return 1;
     }
     let exclude = crate::findings::hist_excluder("C10");
-    let cases = ctx.tier.pick(2500, 25_000);
+    let cases = ctx.tier.pick(2500, 100_000);
     let (stats, failure) = run_sharded(ctx, "c10", cases, strategy, |c, st, counting| test(c, st, counting, &*exclude));
     write_evidence(
         ctx,
